@@ -100,12 +100,13 @@ NextHop(cfg, h) ==
 \* Rule classes name what they match relative to that address; all redirect to peer R.
 CtClasses == {"none", "exact", "hostAnyPort", "anyHostPort", "anyAny", "otherHost", "otherPort",
               "missThenExact", "exactThenAny", "anyThenExactElsewhere", "portOnlyRewrite",
-              "exactOtherCase"}      \* the rule names the hop's host in another letter case (host names are case-insensitive)
+              "exactOtherCase",      \* the rule names the hop's host in another letter case (host names are case-insensitive)
+              "exactPortZeros"}      \* the client spells the port with a leading zero (":080"): the same port, the rule applies
 \* where the connection is opened: "self" = the hop's own address, "R" = redirect target,
 \* "R2" = second redirect target, "selfPortP" = same host, rewritten port
 DialTo(ct) ==
   CASE ct \in {"none", "otherHost", "otherPort"} -> "self"
-    [] ct \in {"exact", "hostAnyPort", "anyHostPort", "anyAny", "missThenExact", "exactThenAny", "exactOtherCase"} -> "R"
+    [] ct \in {"exact", "hostAnyPort", "anyHostPort", "anyAny", "missThenExact", "exactThenAny", "exactOtherCase", "exactPortZeros"} -> "R"
     [] ct = "anyThenExactElsewhere" -> "R"      \* first match wins; the later exact rule points to R2
     [] ct = "portOnlyRewrite" -> "selfPortP"
 
